@@ -17,7 +17,7 @@ import random
 
 from simkit.driver import Check, base_result
 from ref import codec as C
-from checks.worlda import (WorldA, draw_knobs, draw_sched, draw_func_stalls, install_func_stalls, NODE_HOST, NODE_REALM,
+from checks.worlda import (WorldA, bystander_for, bystander_cost, draw_knobs, draw_sched, draw_func_stalls, install_func_stalls, NODE_HOST, NODE_REALM,
                            PEER_HOST, PEER_REALM)
 
 APP_ID = 16777251
@@ -68,7 +68,7 @@ class C08(Check):
         # a connect that never completes is spun on by test_connection(): bound the simulated kernel's
         # connect timeout by what the spin costs in steps at this run's CPU quantum
         ctimeout = max(0.02, min(0.4, 300000 * sched["quantum"]))
-        return {"mode": mode, "point": point, "cause": cause,
+        return {"mode": mode, "point": point, "cause": cause, "bystander": bystander_for(index),
                 "cause_delay": rng.choice([0.0, 0.0, 0.0003, 0.002, 0.011, 0.05, 0.3]),
                 # anchored placement (peer-side causes): fire the cause when a library thread
                 # has executed exactly k more steps after the point was reached; in the
@@ -153,7 +153,11 @@ class C08(Check):
         knobs = w.world.knobs
         tick = knobs["STATE_MACHINE_TICKER"]
         D = knobs["SLEEP_TIMER"] + 2 * knobs["TRACKING_SOCKET_EVENTS_TIMEOUT"] + 1.0 + 60 * tick + \
-            net.get("connect_timeout", 0.4) + 0.5 + 200000 * sim.quantum + scn.get("write_stall", 0.0) + scn.get("rst_gap", 0.0)
+            net.get("connect_timeout", 0.4) + 0.5 + 200000 * sim.quantum + scn.get("write_stall", 0.0) + scn.get("rst_gap", 0.0) + \
+            bystander_cost(scn, sim.quantum) + \
+            ((scn.get("late_consumer") or {}).get("dur", 0.0)) + sum(fs["dur"] for fs in scn.get("func_stalls") or ())
+        # (a stalled-thread fault may hold a lock that others need -- e.g. the late consumer descheduled inside
+        # Event.set() keeps the event's internal lock: bounds count from the end of the injected stalls)
         violations = []
         st = {"reached_point": False, "cause_applied_at": None, "restart_open": None}
         sig_ctx = "%s/%s/%s" % (mode.lower(), point, cause)
@@ -164,6 +168,7 @@ class C08(Check):
         def main(sim):
             from bromelia.base import DiameterRequest
             from bromelia.avps import SessionIdAVP, OriginHostAVP, OriginRealmAVP, DestinationRealmAVP
+            w.maybe_bystander()
             w.start_node()
             consumer = None
             closer = None
@@ -403,6 +408,10 @@ class C08(Check):
                 if open_socks:
                     viol("releases its sockets", "sockets-open", {"sockets": open_socks, "eager": True})
                 if consumer is not None and consumer["t1"] is None:
+                    # the consumer has until the same deadline (the workers may have finished early)
+                    sim.wait_until(lambda: consumer["t1"] is not None,
+                                   max(0.0, st["cause_applied_at"] + D - sim.now) + 0.05, poll=D / 60.0)
+                if consumer is not None and consumer["t1"] is None:
                     viol("application calls blocked waiting for a message return", "consumer-stuck",
                          {"thread_state": consumer["thread"].state, "wait_on": repr(consumer["thread"].wait_on), "eager": True})
                 return
@@ -441,6 +450,10 @@ class C08(Check):
                         viol("application calls blocked waiting for a message return", "consumer-stuck",
                              {"thread_state": th.state, "wait_on": repr(th.wait_on), "state": w.state(),
                               "consumer": "entered get_message() during teardown", "late": late})
+            if consumer is not None and consumer["t1"] is None:
+                # the consumer has until the same deadline (everything else may have been released early)
+                sim.wait_until(lambda: consumer["t1"] is not None,
+                               max(0.0, st["cause_applied_at"] + D - sim.now) + 0.05, poll=D / 60.0)
             if consumer is not None and consumer["t1"] is None:
                 th = consumer["thread"]
                 viol("application calls blocked waiting for a message return", "consumer-stuck",
